@@ -248,6 +248,15 @@ EXPORT errno_t _wcsfc_s_chk(wchar_t *restrict dest, rsize_t dmax,
             } else if (unlikely(is_lithuanian)) {
                 /* I-Dot/J-Dot for Lithuanian, I-Dot for Turkish and Azeri.
                    http://unicode.org/reports/tr21/tr21-5.html#SpecialCasing */
+                /* room for the longest of these expansions and the
+                   terminator? */
+                if (unlikely(dmax <= 3 && (*src == 0xcc || *src == 0xcd ||
+                                           *src == 0x128)))
+                    goto too_small;
+                if (unlikely(dmax <= 2 &&
+                             (*src == 0x49 || *src == 0x4A || *src == 0x12e) &&
+                             _is_lt_accented(*(src + 1))))
+                    goto too_small;
                 switch (*src) {
                 case 0xcc:
                     *dest++ = 0x69;
@@ -317,10 +326,12 @@ EXPORT errno_t _wcsfc_s_chk(wchar_t *restrict dest, rsize_t dmax,
                     dmax--;
                 } else {
                 is_single:
-                    (void)_towfc_single(dest, _dec_w16((wchar_t *)src));
+                    /* _towfc_single stores two elements, dest may have room
+                       for one only */
+                    (void)_towfc_single(tmp, _dec_w16((wchar_t *)src));
                     src++;
-                    /* even if not found dest[0] still contains towlower */
-                    dest++;
+                    /* even if not found tmp[0] still contains towlower */
+                    *dest++ = tmp[0];
                     dmax--;
                 }
             } else {
